@@ -50,8 +50,9 @@ VARIABLES
   snap,       \* ghost: seq of value terms at return time
   outs,       \* ghost: set of <<recipe, value term of the calibration result as SEEN by this call, value at return time>>
   ress,       \* heap: seq of the QuantizationResult objects returned by quantize() (caller-owned, frozen): [rec, pol, cal]
-  fs,         \* the save folder: [Names -> 0 | index of the result whose model AND recipe the two files <name>.tflite /
-              \*   <name>_recipe.json hold] (save() refuses to overwrite an existing model file)
+  fs,         \* the save folder: [Names -> [m, rc]]: index of the result whose model the file <name>.tflite holds / whose recipe
+              \*   <name>_recipe.json holds (0 = no such file). save() writes both and refuses to overwrite an existing model
+              \*   file; export_model() writes the model file only, unconditionally
   scar,       \* [1..NQ -> outcome of the most recent call on that Quantizer that RAISED, or "none"]: a failed call changes nothing
               \*   else in this specification; keeping it in the state (and the VIEW) makes TLC explore - and the replay execute -
               \*   every continuation AFTER a failed call as well, so "a call that raises leaves the object as it was" is checked
@@ -124,20 +125,27 @@ Validate(q) ==
 \* caller-owned objects and remember the recipe that was in force when quantize() made them)
 Save(q, r, n) ==
   /\ r \in 1..Len(ress)
-  /\ IF fs[n] # 0 THEN last' = "raise:exists" /\ UNCHANGED fs
-     ELSE last' = "ok" /\ fs' = [fs EXCEPT ![n] = r]
+  /\ IF fs[n].m # 0 THEN last' = "raise:exists" /\ UNCHANGED fs
+     ELSE last' = "ok" /\ fs' = [fs EXCEPT ![n] = [m |-> r, rc |-> r]]
   /\ UNCHANGED <<policy, rec, quantized, cals, snap, outs, ress, scar>>
   /\ hist' = Append(hist, <<"save", q, r, n, last'>>)
 
+\* result.export_model(<folder>/<n>.tflite): the model file is (over)written, nothing else; never refused
+Export(q, r, n) ==
+  /\ r \in 1..Len(ress)
+  /\ last' = "ok" /\ fs' = [fs EXCEPT ![n].m = r]
+  /\ UNCHANGED <<policy, rec, quantized, cals, snap, outs, ress, scar>>
+  /\ hist' = Append(hist, <<"export", q, r, n, last'>>)
+
 Init == /\ policy = "P0" /\ rec = [q \in Qs |-> NoRecipe] /\ quantized = [q \in Qs |-> FALSE]
-        /\ cals = <<>> /\ snap = <<>> /\ outs = {} /\ scar = [q \in Qs |-> "none"] /\ ress = <<>> /\ fs = [n \in Names |-> 0] /\ hist = <<>> /\ last = "init"
+        /\ cals = <<>> /\ snap = <<>> /\ outs = {} /\ scar = [q \in Qs |-> "none"] /\ ress = <<>> /\ fs = [n \in Names |-> [m |-> 0, rc |-> 0]] /\ hist = <<>> /\ last = "init"
 Next == /\ Len(hist) < MaxLen
         /\ \E q \in Qs : \/ \E r \in Recipes : Load(q, r)
                          \/ \E p \in Policies : (p # policy /\ LoadPolicy(q, p))
                          \/ \E d \in Datasets, prev \in 0..MaxCals : Calibrate(q, d, prev)
                          \/ \E k \in 0..MaxCals : Quantize(q, k)
                          \/ Validate(q)
-                         \/ (q = 1 /\ \E r \in 1..MaxRes, n \in Names : Save(q, r, n))
+                         \/ (q = 1 /\ \E r \in 1..MaxRes, n \in Names : Save(q, r, n) \/ Export(q, r, n))
 Spec == Init /\ [][Next]_vars
 
 \* ------------------------------------------------------------------ C14
@@ -148,7 +156,11 @@ ArgsUntouched == \A k \in 1..Len(cals) : cals[k].val = snap[k] /\ cals[k].writes
 OutputIsFunction == \A o \in outs : o[3] = o[4]
 
 \* a saved pair is the model and the recipe of ONE result, and results keep the recipe / policy they were made under
-SavedPairOfOneResult == \A n \in Names : fs[n] # 0 => fs[n] \in 1..Len(ress)
+\* (export_model may later replace the model file alone: then, and only then, the two files stem from different results)
+SavedPairOfOneResult == \A n \in Names : /\ fs[n].m \in 0..Len(ress) /\ fs[n].rc \in 0..Len(ress)
+                                         /\ (fs[n].rc # 0 => fs[n].m # 0)          \* a recipe file never stands alone
+\* save() never overwrites: a call refused for an existing name changes no file; a recipe file, once written, is never replaced
+SaveNeverOverwrites == [][\A n \in Names : (fs[n].rc # 0 => fs'[n].rc = fs[n].rc) /\ (last' = "raise:exists" => fs' = fs)]_vars
 
 EmitH == PrintT(<<"HIST", ToJson([hist |-> hist, last |-> last])>>)
 =============================================================================
